@@ -197,7 +197,10 @@ func (c *CrossingEdgeQuery) candidatesEdgeMap(a, b Point) EdgeMap {
 		// Typically this method is called many times, so it is worth checking
 		// whether the edge map is empty or already consists of a single entry for
 		// this shape, and skip clearing edge map in that case.
-		shape := c.index.Shape(0)
+		var shape Shape
+		for _, sh := range c.index.shapes {
+			shape = sh // the only shape; its id need not be 0 after removals
+		}
 
 		// Note that we leave the edge map non-empty even if there are no candidates
 		// (i.e., there is a single entry with an empty set of edges).
